@@ -565,6 +565,10 @@ pub fn next_literal(source: &mut Peekable<impl Iterator<Item = TokenTree>>) -> O
         if literal.starts_with("\"") {
             literal.remove(0);
             literal.remove(literal.len() - 1);
+        } else if literal.starts_with("r\"") || literal.starts_with("r#") {
+            // a raw string: r"..", r#".."#, ...
+            let hashes = literal[1..].chars().take_while(|c| *c == '#').count();
+            literal = literal[hashes + 2..literal.len() - hashes - 1].to_string();
         }
         source.next();
         return Some(literal);
